@@ -15,7 +15,8 @@ STYLE = {3: "asked for value-level changes that leave call graph/locks/loops alo
          10: "asked for robustness / error-handling hardening that is subtly wrong: catch_unwind around callbacks, poisoned-lock tolerance, fallbacks for an empty pool / sender slot, re-entrancy detection, bounded waits and give-up paths, Drop guards, retry / restart logic, clamps",
          11: "asked for observability / diagnostics / test-seam additions that are supposed to be behaviour-neutral (new gauges and histograms, live queue-length accessors, tracing wrappers, rate-limited error reports, per-subscriber statistics) but break the property; nothing existing is removed",
          12: "plausible but wrong repairs of the known findings (C09-F1, C11-F1, C13-F1, C18-F1): the agent was given the property text and, unlike in the other rounds, the confirmed defect with its witness, and asked for a repair that fixes the witness but leaves or introduces a violation; stored under the property it breaks",
-         13: "no style asked for: the most likely real-world regression of the property not tried yet, 1-15 lines on the core code paths (a last measurement in the style of rounds 1-4)"}
+         13: "no style asked for: the most likely real-world regression of the property not tried yet, 1-15 lines on the core code paths (a last measurement in the style of rounds 1-4)",
+         14: "a pull-request-sized clean-up (40-120 changed lines, 1-3 files: helper extraction, merged matches, renamed locals, new private types) with exactly one subtle behavioural change buried in it; the same agent also wrote the twin PR with that one change repaired (selftest/benign t14_*)"}
 n = 0
 for f in sys.argv[2:]:
     for l in open(f):
